@@ -133,6 +133,7 @@ class ScriptRunner:
             return ' '.join(out)
 
         def sub_out(o):
+            o0 = o
             for k, sv in enumerate(self.outsyms):
                 ph = '{%d}' % k
                 if ph in o:
@@ -140,6 +141,9 @@ class ScriptRunner:
                         o = o.replace(ph, str(val(sv.v)))
                     else:
                         o = o.replace(ph, hx(bytes(val(b) for b in sv)))
+            if o.startswith('ok:[') and o.endswith(']') and '{' not in o and o != o0:
+                # a listing with symbolic names: the native driver sorts the concrete names
+                o = 'ok:[%s]' % ','.join(sorted(x for x in o[4:-1].split(',') if x))
             return o
         lines = [sub_line(l) for l, _ in self.log]
         outs = ['%d %s' % (i + 1, sub_out(o)) for i, (_, o) in enumerate(self.log)]
